@@ -20,6 +20,7 @@ type chanState struct {
 	bufVC   []vclock
 	recvVC  vclock
 	closeVC vclock
+	data    bool // foreign channel carrying values (see stateOfLocked)
 }
 
 // exchangeVC: a rendezvous on an unbuffered channel orders both sides.
@@ -59,6 +60,11 @@ func (r *runtimeState) stateOfLocked(ch any) *chanState {
 	}
 	v := reflect.ValueOf(ch)
 	st := &chanState{id: k, cap: v.Cap(), owned: false, real: v, label: fmt.Sprintf("foreign#%d(%s)", len(r.chans), v.Type())}
+	// a foreign channel that carries values is fed by a goroutine of an un-instrumented package (cache reads,
+	// schema streams): a receive on it is always offered and, when chosen, blocks for real until the value is
+	// there - its readiness must not depend on how far that goroutine got in real time. Signal channels
+	// (chan struct{}: ctx.Done) are waited for by polling, they are closed by the environment.
+	st.data = v.Type().Elem().Size() != 0
 	r.chans[k] = st
 	return st
 }
@@ -234,6 +240,28 @@ func (r *runtimeState) doRecvLocked(st *chanState, t *thread) {
 	}
 }
 
+// foreignDataSelectLocked: no default, only receives on foreign channels, at least one carrying data, nothing stashed.
+func (r *runtimeState) foreignDataSelectLocked(s *Sel) bool {
+	if s.hasDefault || len(s.cases) == 0 {
+		return false
+	}
+	data := false
+	for i := range s.cases {
+		c := &s.cases[i]
+		if c.st == nil {
+			c.st = r.stateOfLocked(c.ch)
+		}
+		if c.st.id == 0 && !c.send {
+			continue // nil channel (e.g. context.Background().Done()): never ready
+		}
+		if c.send || c.st.owned || len(c.st.buf) > 0 || c.st.closed {
+			return false
+		}
+		data = data || c.st.data
+	}
+	return data
+}
+
 func (r *runtimeState) readyCasesLocked(s *Sel, t *thread) []int {
 	var ready []int
 	for i := range s.cases {
@@ -295,6 +323,16 @@ func recvAny(ch any) (any, bool, *chanState) {
 	rs.mu.Unlock()
 	o := &op{kind: OpRecv, obj: st, label: st.label}
 	park(o)
+	if o.realRecv {
+		v, ok := st.real.Recv()
+		if !ok {
+			rs.mu.Lock()
+			st.closed = true
+			rs.mu.Unlock()
+			return nil, false, st
+		}
+		return v.Interface(), true, st
+	}
 	return o.val, o.ok, st
 }
 
@@ -360,6 +398,10 @@ func Select(hasDefault bool, cases ...SelCase) *Sel {
 	}
 	o := &op{kind: OpSelect, sel: s, label: fmt.Sprintf("%d cases", len(cases))}
 	park(o)
+	if o.chosenCase == -3 {
+		// all cases are receives on foreign channels, one of them carries data: wait for real
+		return realSelect(s)
+	}
 	s.Index = o.chosenCase
 	if s.Index >= 0 {
 		c := s.cases[s.Index]
